@@ -28,6 +28,8 @@ enum Src {
 #[derive(Clone, Debug)]
 enum Cmd {
     New(usize),
+    /// a value whose destructor panics (C18)
+    NewP(usize),
     Clone(usize, usize),
     Drop(usize),
     Load(usize, usize),
@@ -65,6 +67,7 @@ fn parse_cmd(s: &str) -> Cmd {
     let n = |i: usize| -> usize { w[i].parse().unwrap() };
     match w[0] {
         "new" => Cmd::New(n(1)),
+        "newp" => Cmd::NewP(n(1)),
         "clone" => Cmd::Clone(n(1), n(2)),
         "drop" => Cmd::Drop(n(1)),
         "load" => Cmd::Load(n(1), n(2)),
@@ -222,6 +225,14 @@ where
         match cmd {
             Cmd::New(h) => {
                 let v = Some(VPtr::new());
+                let a = addr_of(&v);
+                self.put(*h, Handle::Owned(v));
+                format!("O {}", a)
+            }
+            Cmd::NewP(h) => {
+                let p = VPtr::new();
+                p.set_panic_on_destroy();
+                let v = Some(p);
                 let a = addr_of(&v);
                 self.put(*h, Handle::Owned(v));
                 format!("O {}", a)
@@ -593,7 +604,12 @@ where
                     yield_point(t, Pending::Cmd(k));
                     with_world(|w| w.cur_cmd[t] = k);
                     log_line(format!("{} CMD {}", t, k));
-                    let ret = tables.exec(cmd);
+                    // user code (a pointee destructor) may panic inside an operation: the harness
+                    // catches the unwind like a caller would and goes on with the next command
+                    let ret = match std::panic::catch_unwind(std::panic::AssertUnwindSafe(|| tables.exec(cmd))) {
+                        Ok(r) => r,
+                        Err(_) => "P".into(),
+                    };
                     log_line(format!(". RET {} {}", k, ret));
                 }
                 yield_point(t, Pending::Exit);
